@@ -265,6 +265,66 @@ Proof.
   eexists. split; [split; [|split]|]; [| vm_compute; reflexivity | vm_compute; reflexivity | left; vm_compute; reflexivity]. auto.
 Qed.
 
+(* ----------------------------------------------------------------------------------------------------------------------
+   What a buffer is called.  Three places give or use a buffer's name: bufs_find (lookup), bufs_open (creation; :e, :next,
+   the argument list) and ec_write (`:w path` in the UNNAMED buffer).  All three take the path exactly as typed -- names are
+   compared as strings, `./a` and `a` are two buffers -- up to "/" = the unnamed buffer.  (Proofs in BufsNames.v.)
+   C20_write_names: a successful `:w p` in the unnamed buffer: the buffer is afterwards FOUND under p by bufs_find (in slot 0:
+   so every later :e p / :e # / :ew p -- C20_reaches_path and friends -- returns to it instead of opening a second buffer);
+   id, view and lbuf (marked saved) are its own; no other slot, the counter and the globals do not move; the file p denotes
+   on disk (fskey: `./`, `//`, `d/..` removed) holds the buffer's text, every other file is untouched.
+   C20_write_names_succeeds: that write is not refused when it is forced or the file does not exist.
+   C20_open_names: bufs_open stores canon p and bufs_find p afterwards finds a slot holding exactly that name. *)
+From NV Require Import BufsNames.
+Theorem C20_write_names : forall (L Op Out : Type) (Lo : lops L Op Out) (s : st L) (bang : bool) (p : path) (b : buf L) (s' : st L) (evs : list (ev Out)),
+  slot0 s = Some b -> b_path b = [] -> p <> [] -> canon p = p ->
+  ec_write Lo s bang (Some p) = (s', evs) -> evs = [EvMsg MWrote] ->
+  (exists b', slot0 s' = Some b' /\ b_path b' = p /\ b_id b' = b_id b /\ b_view b' = b_view b /\
+              b_lb b' = lb_saved Lo false (b_lb b)) /\
+  bufs_find s' p = Some 0%nat /\
+  tl (bufs s') = tl (bufs s) /\ cnt s' = cnt s /\ xv s' = xv s /\ pct s' = p /\
+  fs_get (fs s') p = Some (lb_text Lo (b_lb b)) /\
+  (forall q, path_eqb (fskey p) (fskey q) = false -> fs_get (fs s') q = fs_get (fs s) q).
+Proof. intros L Op Out Lo. exact (write_names Lo). Qed.
+Print Assumptions C20_write_names.
+Theorem C20_write_names_succeeds : forall (L Op Out : Type) (Lo : lops L Op Out) (s : st L) (bang : bool) (p : path) (b : buf L),
+  slot0 s = Some b -> b_path b = [] -> p <> [] -> (bang = true \/ fs_get (fs s) p = None) ->
+  snd (ec_write Lo s bang (Some p)) = [EvMsg MWrote].
+Proof. intros L Op Out Lo. exact (write_names_succeeds Lo). Qed.
+Print Assumptions C20_write_names_succeeds.
+Theorem C20_open_names : forall (L Op Out : Type) (Lo : lops L Op Out) (s : st L) (p : path),
+  (bufs_findroom s < length (bufs s))%nat ->
+  let s' := fst (bufs_open Lo s p) in
+  (exists b, nth_error (bufs s') (bufs_findroom s) = Some (Some b) /\ b_path b = canon p) /\
+  (exists i b, bufs_find s' p = Some i /\ nth_error (bufs s') i = Some (Some b) /\ b_path b = canon p).
+Proof. intros L Op Out Lo. exact (open_names Lo). Qed.
+Print Assumptions C20_open_names.
+(* the two spellings of one file: what is written under one is read under the other *)
+Theorem C20_fs_alias : forall fs p q c, fskey q = fskey p -> fs_get (fs_put fs p c) q = Some c.
+Proof. exact fs_get_put_alias. Qed.
+Print Assumptions C20_fs_alias.
+
+(* Non-vacuity, on the concrete line buffer: a session started WITHOUT a file; the unnamed buffer gets text `a`, is named by
+   `:w ./n`, gets a second line `b` (unwritten), is left by `:e! o` and re-entered by `:e! ./n`: the buffer reached is buffer 1
+   with both lines, the last command read no file, the file n holds `a`.  `:e! n` -- another spelling, another string -- is a
+   DIFFERENT buffer (id 3) that reads the file. *)
+Example C20_names_nonvacuous :
+  let dn := [46%N; 47%N; 110%N] in
+  let s0 := run clb_ops (fst (c_init [([111%N], [[120%N]])] [])) [COp (OAppend None [[97%N]])] in
+  let s1 := run clb_ops s0 [CWrite false (Some dn); COp (OAppend None [[98%N]]); CEdit true false (PLit [111%N])] in
+  let s2 := c_command s1 (CEdit true false (PLit dn)) in
+  let s3 := c_command (fst s2) (CEdit true false (PLit [110%N])) in
+  (exists b, slot0 s0 = Some b /\ b_path b = [] /\ snd (ec_write clb_ops s0 false (Some dn)) = [EvMsg MWrote] /\ canon dn = dn) /\
+  (exists b, slot0 (fst s2) = Some b /\ b_id b = 1%Z /\ b_path b = dn /\ c_text (b_lb b) = [[97%N]; [98%N]]) /\
+  snd s2 = [] /\ fs_get (fs (fst s2)) [110%N] = Some [[97%N]] /\
+  (exists b, slot0 (fst s3) = Some b /\ b_id b = 3%Z /\ b_path b = [110%N] /\ c_text (b_lb b) = [[97%N]]) /\ snd s3 = [EvRead] /\
+  fskey [46%N; 47%N; 46%N; 47%N; 47%N; 115%N; 47%N; 46%N; 46%N; 47%N; 110%N] = [110%N].
+Proof.
+  cbn zeta. split; [eexists; vm_compute; repeat split; reflexivity|]. split; [eexists; vm_compute; repeat split; reflexivity|].
+  split; [vm_compute; reflexivity|]. split; [vm_compute; reflexivity|]. split; [eexists; vm_compute; repeat split; reflexivity|].
+  split; vm_compute; reflexivity.
+Qed.
+
 (* ======================================================================================================================
    The table functions of /repo/ex.c ON THE C TEXT.  tools/c2clite.py translates bufs_find, bufs_findroom, bufs_save, bufs_load,
    bufs_switch, bufs_shift, bufs_number, bufs_free, ex_path, ex_filetype (tools/c2clite.d/85_bufs.list) into CLite terms
